@@ -41,7 +41,7 @@ LEVEL_NOTE = ("trusted: numpy, the transcription of the nondimensional flux sums
               "documented constants c and a_r; the Eddington factor of the FLD closures is not public and is read from the "
               "solver's internal profile (Pr/Er), that of Sn from the public attribute VEF; assumed: parameter values between "
               "lattice values are not seen; vectors for which the solver raises are counted, not judged")
-BOUND = {"quick": "K=1 deviations from the default vector of ED_Solver, nED_Solver, ie_Solver; Sn_Solver default only; times 0, 1e-9, 3e-9",
+BOUND = {"quick": "K=2 deviations from the default vector of ED_Solver, K=1 of nED_Solver and ie_Solver; Sn_Solver default only; times 0, 1e-9, 3e-9",
          "thorough": "K=2 deviations; Sn_Solver at M0 in {1.2, 2}; times 0, 1e-9, 3e-9"}
 RULE = ("tasks = parameter vectors with <=K deviations from each family's default; per vector: one construction, one public "
         "call per lattice time plus one at t=0 on the profile nodes (an evaluation is one public call); flux sums on every "
@@ -95,6 +95,10 @@ def tasks(tier, seed):
     for name, f in FAMILIES.items():
         if name == "Sn_Solver":
             devs = [{}] if tier == "quick" else lattice.enumerate_checked(f["alphabet"], 1)
+        elif name == "ED_Solver":
+            # 1-2 s per vector: two deviations in both tiers (a closure that mixes the absorption and scattering exponents needs
+            # sigS != 0 AND unequal exponents: seeded changes S-C12-2, S3-C12-2)
+            devs = lattice.enumerate_checked(f["alphabet"], 2)
         else:
             devs = lattice.enumerate_checked(f["alphabet"], K[tier])
         for d in devs:
